@@ -120,7 +120,15 @@ impl SettingsSpec {
 }
 
 pub fn parse_path(s: &str) -> syn::Path {
-    syn::parse_str(s).unwrap_or_else(|e| panic!("path `{s}`: {e}"))
+    // `P(A)` (parenthesised arguments) does not parse as a plain path: build it by hand
+    if let Some(idx) = s.find('(') {
+        let mut base: syn::Path = syn::parse_str(&s[..idx]).unwrap_or_else(|e| panic!("path `{s}`: {e}"));
+        let args: syn::ParenthesizedGenericArguments =
+            syn::parse_str(&s[idx..]).unwrap_or_else(|e| panic!("path `{s}`: {e}"));
+        base.segments.last_mut().expect("segment").arguments = syn::PathArguments::Parenthesized(args);
+        return base;
+    }
+    syn::parse_str::<syn::Path>(s).unwrap_or_else(|e| panic!("path `{s}`: {e}"))
 }
 pub fn parse_type_path(s: &str) -> syn::TypePath {
     syn::parse_str(s).unwrap_or_else(|e| panic!("type path `{s}`: {e}"))
